@@ -254,3 +254,84 @@ func inspectDeep(c *core.Ctx, d *core.DeclSite, depth int, f func(hd *core.DeclS
 		ast.Inspect(hd.Decl.Body, func(n ast.Node) bool { return f(hd, n) })
 	}
 }
+
+// collLoop: a loop that visits the elements of a collection, whatever its spelling:
+// `for _, v := range E`, `for i := range E`, `for i := 0; i < len(E); i++` - where E is the
+// collection expression itself or a local variable assigned from it before the loop.
+type collLoop struct {
+	node ast.Node
+	body *ast.BlockStmt
+	coll string // the collection expression (after resolving a hoisted local)
+	elem string // the expression that denotes the current element in the body ("" if unknown)
+}
+
+func collLoops(pk *packages.Package, body *ast.BlockStmt) []collLoop {
+	// hoisted locals: x := <expr>
+	alias := map[string]string{}
+	ast.Inspect(body, func(n ast.Node) bool {
+		if as, ok := n.(*ast.AssignStmt); ok && as.Tok.String() == ":=" && len(as.Lhs) == 1 && len(as.Rhs) == 1 {
+			if id, ok := as.Lhs[0].(*ast.Ident); ok {
+				if _, isCall := ast.Unparen(as.Rhs[0]).(*ast.CallExpr); isCall {
+					alias[id.Name] = core.ExprStr(as.Rhs[0])
+				} else if _, isSel := ast.Unparen(as.Rhs[0]).(*ast.SelectorExpr); isSel {
+					alias[id.Name] = core.ExprStr(as.Rhs[0])
+				}
+			}
+		}
+		return true
+	})
+	resolve := func(e ast.Expr) string {
+		s := core.ExprStr(ast.Unparen(e))
+		if a, ok := alias[s]; ok {
+			return a
+		}
+		return s
+	}
+	var out []collLoop
+	ast.Inspect(body, func(n ast.Node) bool {
+		switch l := n.(type) {
+		case *ast.RangeStmt:
+			cl := collLoop{node: l, body: l.Body, coll: resolve(l.X)}
+			if l.Value != nil && core.ExprStr(l.Value) != "_" {
+				cl.elem = core.ExprStr(l.Value)
+			} else if l.Key != nil && core.ExprStr(l.Key) != "_" {
+				cl.elem = core.ExprStr(ast.Unparen(l.X)) + "[" + core.ExprStr(l.Key) + "]"
+			}
+			out = append(out, cl)
+		case *ast.ForStmt:
+			if l.Cond == nil || l.Init == nil {
+				return true
+			}
+			init, ok := l.Init.(*ast.AssignStmt)
+			if !ok || len(init.Lhs) != 1 {
+				return true
+			}
+			iv := core.ExprStr(init.Lhs[0])
+			be, ok := ast.Unparen(l.Cond).(*ast.BinaryExpr)
+			if !ok || core.ExprStr(be.X) != iv {
+				return true
+			}
+			// i < len(E)   or   i < n with n := len(E)
+			var collExpr ast.Expr
+			if call, ok := ast.Unparen(be.Y).(*ast.CallExpr); ok && core.ExprStr(call.Fun) == "len" && len(call.Args) == 1 {
+				collExpr = call.Args[0]
+			} else if a, ok := alias[core.ExprStr(be.Y)]; ok && strings.HasPrefix(a, "len(") && strings.HasSuffix(a, ")") {
+				// n := len(E): alias holds "len(E)"
+				inner := a[4 : len(a)-1]
+				out = append(out, collLoop{node: l, body: l.Body, coll: func() string {
+					if r, ok := alias[inner]; ok {
+						return r
+					}
+					return inner
+				}(), elem: inner + "[" + iv + "]"})
+				return true
+			}
+			if collExpr == nil {
+				return true
+			}
+			out = append(out, collLoop{node: l, body: l.Body, coll: resolve(collExpr), elem: core.ExprStr(ast.Unparen(collExpr)) + "[" + iv + "]"})
+		}
+		return true
+	})
+	return out
+}
